@@ -183,6 +183,7 @@ func c20Precedence(p *Prog, r *Report) {
 			// a copy of another member of the lineage is not an initialisation: the source carries the defaults
 		}
 	}
+	c20CustomUnmarshallers(p, r, fi)
 	decodeKeys := []string{"(*gopkg.in/yaml.v2.Decoder).Decode", "gopkg.in/yaml.v2.Unmarshal", "gopkg.in/yaml.v2.UnmarshalStrict"}
 	dec := f.CallSites(decodeKeys...)
 	env := f.CallSites(kCfgParseEnv)
@@ -1633,4 +1634,77 @@ func c20SemanticSetting(p *Prog, r *Report, cons string, l *cfgLeaf) bool {
 func isResolvedFunc(info *types.Info, c *ast.CallExpr) bool {
 	fn, _ := typeutil.Callee(info, c).(*types.Func)
 	return fn != nil
+}
+
+// c20CustomUnmarshallers (seeded C20-A, round 6): "decode the file over a copy of the defaults" only works while
+// the decoder fills the value it is given. A section type with its own UnmarshalYAML decides itself what absent keys
+// become: the value it decodes into must start as the receiver's current value (raw := plain(*s)), not as a zero
+// value that is then assigned over the receiver - otherwise every setting the file does not mention loses its
+// default.
+func c20CustomUnmarshallers(p *Prog, r *Report, parse *FuncInfo) {
+	for _, k := range sortedFuncKeys(p) {
+		fi := p.Funcs[k]
+		if fi.Pkg != parse.Pkg || fi.Decl == nil || fi.Decl.Body == nil || fi.Decl.Recv == nil || fi.Decl.Name.Name != "UnmarshalYAML" {
+			continue
+		}
+		if len(fi.Decl.Recv.List) != 1 || len(fi.Decl.Recv.List[0].Names) != 1 {
+			continue
+		}
+		info := fi.Pkg.TypesInfo
+		recv := info.Defs[fi.Decl.Recv.List[0].Names[0]]
+		f := p.FlatOf(fi)
+		cons := k + "#decodes-over-the-current-value"
+		// the decode calls: unmarshal(&x) through the function parameter, or node.Decode(&x)
+		n := 0
+		for _, gn := range f.Nodes {
+			if gn.Ast == nil {
+				continue
+			}
+			for _, c := range callsIn(gn.Ast, false) {
+				if len(c.Args) != 1 {
+					continue
+				}
+				isDecode := false
+				if o := objOf(info, c.Fun); o != nil {
+					if _, isSig := o.Type().Underlying().(*types.Signature); isSig {
+						if v, isVar := o.(*types.Var); isVar && !v.IsField() {
+							isDecode = true // the unmarshal callback
+						}
+					}
+				}
+				if sel, ok := ast.Unparen(c.Fun).(*ast.SelectorExpr); ok && sel.Sel.Name == "Decode" {
+					isDecode = true
+				}
+				if !isDecode {
+					continue
+				}
+				n++
+				arg := ast.Unparen(c.Args[0])
+				good := false
+				detail := ""
+				if usesObj(info, arg, recv) {
+					good = true // decoded straight into (a view of) the receiver
+				} else if u, isAddr := arg.(*ast.UnaryExpr); isAddr && u.Op == token.AND {
+					if o := objOf(info, u.X); o != nil {
+						defs := f.ReachingDefs(gn.ID, o)
+						good = len(defs) > 0
+						for _, d := range defs {
+							if d.Rhs == nil || !usesObj(info, d.Rhs, recv) {
+								good = false
+								detail = "the value handed to the decoder (" + o.Name() + ") does not start as the receiver's current value"
+							}
+						}
+						if len(defs) == 0 {
+							detail = "the value handed to the decoder (" + o.Name() + ") is a zero value"
+						}
+					}
+				}
+				r.Check(good, "C20.a", cons, p.pos(c), "the custom unmarshaller decodes over the receiver's current value",
+					detail+": settings the file does not mention are reset instead of keeping the default they were pre-filled with")
+			}
+		}
+		if n == 0 {
+			r.Undecided("C20.a", cons, p.pos(fi.Decl), "a custom UnmarshalYAML without a decode call the rule recognises")
+		}
+	}
 }
